@@ -503,6 +503,9 @@ type c13desc struct {
 	Unprefixed bool `json:"unprefixed_store"`
 	// Overlap != 0: the overlapping-Flush scenario (see flushOverlap), Muts/Queries are what it ran
 	Overlap int `json:"overlapping_flush"`
+	// Big: a large index population (hundreds of entries under one key prefix, ids in prefix relation around
+	// positions 256 and 512 of the scan); the ids are those of Muts
+	Big bool `json:"big_population"`
 	// Foreign: raw keys (hex) written into the database after the Flush, under an index prefix but without the
 	// NUL separator: FetchCollection's "index entry is invalid" error path (correspondence only)
 	Foreign []string `json:"foreign_keys,omitempty"`
@@ -513,6 +516,17 @@ func runC13(d c13desc, dist map[string]int, impl *[]ImplViolation) Case {
 		return flushOverlap(d.Overlap, dist, impl)
 	}
 	e := newEnvOpt(d.Unprefixed, mkIQ)
+	if d.Big {
+		seen := map[string]bool{}
+		e.ids = nil
+		for _, m := range d.Muts {
+			if !seen[m.ID] {
+				seen[m.ID] = true
+				e.ids = append(e.ids, m.ID)
+			}
+		}
+		sort.Strings(e.ids)
+	}
 	defer e.close()
 	var stop int32
 	var wg sync.WaitGroup
@@ -650,6 +664,30 @@ func genQueries(r *Rng, ms []mut, full bool, n int) []qd {
 	return qs
 }
 
+// gatedApply applies a mutation whose index task is to stop at gate g.  true: the writer returned and the gate
+// is held by the index worker (the situation the scenarios need).  false: the gate was entered on the WRITER's
+// goroutine (the store calls Index.Key inside the write), so nothing is queued that a Flush could wait for; the
+// gate is released at once and the scenario is skipped.
+func (e *env) gatedApply(m mut, g *gateT, dist map[string]int) bool {
+	done := make(chan struct{})
+	go func() { e.apply(m); close(done) }()
+	select {
+	case <-g.entered:
+	case <-time.After(5 * time.Second):
+	}
+	select {
+	case <-done:
+		return true
+	case <-time.After(300 * time.Millisecond):
+	}
+	gate.Store((*gateT)(nil))
+	gate2.Store((*gateT)(nil))
+	close(g.release)
+	<-done
+	dist["gate_entered_on_the_writer_goroutine"]++
+	return false
+}
+
 // Flush must not return while an index task accepted before it still runs: hold
 // the task inside the user Key callback, call Flush, release.
 func flushRace(impl *[]ImplViolation, dist map[string]int) {
@@ -659,7 +697,9 @@ func flushRace(impl *[]ImplViolation, dist map[string]int) {
 	e.qs.Flush()
 	g := &gateT{entered: make(chan struct{}), release: make(chan struct{})}
 	gate.Store(g)
-	e.apply(mut{Op: "u", ID: "1", A: "62", BNil: true})
+	if !e.gatedApply(mut{Op: "u", ID: "1", A: "62", BNil: true}, g, dist) {
+		return
+	}
 	desc := map[string]interface{}{"scenario": "flush-race", "history": "create 1 {A:a}; Flush; update 1 {A:b} with Index.Key blocked; Flush"}
 	select {
 	case <-g.entered:
@@ -695,6 +735,69 @@ func flushRace(impl *[]ImplViolation, dist map[string]int) {
 	if ids, _ := e.query(qd{I: 0, P: "62", L: -1}); len(ids) != 1 {
 		*impl = append(*impl, ImplViolation{What: "after Flush the index does not reflect the mutation", Desc: desc})
 	}
+}
+
+// genBig: n values that all carry index key "kk" (index "k") - and every third one also key "kk" of index "kb" -
+// so that one prefix holds n entries ordered by id.  The ids are laid out so that at the scan positions 255-258,
+// 511-514, 767-... (forward and, by symmetry of the construction, reverse) sit ids in prefix relation: "b" followed
+// by "b0".."b9", "1" followed by "10", "100".  Queries: whole prefix / full key, forward and reverse, offsets and
+// limits crossing multiples of 256, with and without key filter.
+func genBig(r *Rng, n int) c13desc {
+	var ids []string
+	block := 0
+	for len(ids) < n {
+		// plain ids up to just before the next multiple of 256, then a cluster of ids extending each other
+		next := (len(ids)/256+1)*256 - 1 - r.Intn(2)
+		for len(ids) < next && len(ids) < n {
+			ids = append(ids, fmt.Sprintf("%c%03d", 'a'+2*block, len(ids)))
+		}
+		stem := string(rune('b' + 2*block))
+		cluster := []string{stem}
+		for k := 0; k < 6; k++ {
+			cluster = append(cluster, stem+strconv.Itoa(k))
+		}
+		cluster = append(cluster, stem+"00", stem+"1x")
+		for _, id := range cluster {
+			if len(ids) < n {
+				ids = append(ids, id)
+			}
+		}
+		block++
+	}
+	// creation order shuffled, plus a few updates and deletes that keep the population
+	perm := make([]string, len(ids))
+	copy(perm, ids)
+	for i := len(perm) - 1; i > 0; i-- {
+		j := r.Intn(i + 1)
+		perm[i], perm[j] = perm[j], perm[i]
+	}
+	kk := hex.EncodeToString([]byte("kk"))
+	var ms []mut
+	for i, id := range perm {
+		m := mut{Op: "c", ID: id, A: kk, BNil: i%3 != 0, B: kk}
+		if m.BNil {
+			m.B = ""
+		}
+		ms = append(ms, m)
+	}
+	for k := 0; k < 6; k++ {
+		id := perm[r.Intn(len(perm))]
+		ms = append(ms, mut{Op: "u", ID: id, A: hex.EncodeToString([]byte("zz")), BNil: true}, mut{Op: "u", ID: id, A: kk, BNil: true})
+	}
+	var qs []qd
+	for _, p := range []string{"", "kk", "k"} {
+		ph := hex.EncodeToString([]byte(p))
+		for _, rev := range []bool{false, true} {
+			qs = append(qs, qd{P: ph, L: -1, R: rev})
+		}
+	}
+	offs := []int{0, 250, 255, 256, 257, 300, 510, 512, 513, 770}
+	lims := []int{-1, 1, 3, 12, 300}
+	for k := 0; k < 24; k++ {
+		qs = append(qs, qd{I: r.Intn(3) / 2, P: hex.EncodeToString([]byte(r.Pick([]string{"", "kk"}))), F: r.Intn(2) * (1 + 2*r.Intn(2)),
+			O: offs[r.Intn(len(offs))], L: lims[r.Intn(len(lims))], R: r.Bool()})
+	}
+	return c13desc{Muts: ms, Queries: qs, Big: true}
 }
 
 // flushOverlap: overlapping QueryStore.Flush calls.  The index worker is stalled inside Index.Key (task of an
@@ -740,11 +843,8 @@ func flushOverlap(variant int, dist map[string]int, impl *[]ImplViolation) Case 
 	g2 := &gateT{entered: make(chan struct{}), release: make(chan struct{}), key: lastKey}
 	gate.Store(g1)
 	gate2.Store(g2)
-	e.apply(muts[1])
-	select {
-	case <-g1.entered:
-	case <-time.After(5 * time.Second):
-		*impl = append(*impl, ImplViolation{What: "harness lost the index task (Index.Key gate never entered)", Desc: d})
+	if !e.gatedApply(muts[1], g1, dist) {
+		return Case{Term: "C13 [] [] [] [] [] []", Desc: d}
 	}
 	var stored, keys string
 	var qos []string
@@ -897,6 +997,76 @@ func freshRace(typed, viaQS bool, dist map[string]int) {
 	dist["fresh_object_rounds"] += 20
 }
 
+// sameResourceOverlap: a query resource served by store.QueryHandler whose pattern also carries the
+// application's own call handler, plus Service.With callbacks on the same resource.  They are one worker group, so
+// they run one at a time and may touch per-resource memory without synchronisation.  Two call requests and a With
+// callback are put in flight together (each holds the resource for a few milliseconds), several rounds.
+// Returns whether two callbacks of the resource were ever inside at the same time.
+func sameResourceOverlap(dist map[string]int) (overlapped bool) {
+	e := newEnv()
+	defer e.close()
+	e.apply(mut{Op: "c", ID: "1", A: "61", BNil: true})
+	e.qs.Flush()
+	var inside, over int32
+	counter := 0 // plain per-resource memory of the application
+	enter := func() {
+		if atomic.AddInt32(&inside, 1) > 1 {
+			atomic.StoreInt32(&over, 1)
+		}
+		counter++
+		time.Sleep(3 * time.Millisecond)
+		counter++
+		atomic.AddInt32(&inside, -1)
+	}
+	var logErrs int32
+	svc := res.NewService("t")
+	svc.SetLogger(nolog{&logErrs})
+	svc.Handle("s", res.Collection,
+		store.QueryHandler{}.WithQueryStore(e.qs).WithQueryRequestHandler(func(rname string, pp map[string]string, q url.Values) (url.Values, string, error) {
+			return q, q.Encode() + "&n=1", nil
+		}),
+		res.Call("bump", func(r res.CallRequest) {
+			enter()
+			r.OK(nil)
+		}))
+	conn := newConn()
+	started := make(chan struct{})
+	var once sync.Once
+	conn.onPub = func(subj string, _ []byte) {
+		if subj == "system.reset" {
+			once.Do(func() { close(started) })
+		}
+	}
+	go svc.Serve(conn)
+	select {
+	case <-started:
+	case <-time.After(5 * time.Second):
+	}
+	for round := 0; round < 6; round++ {
+		var wg sync.WaitGroup
+		for k := 0; k < 2; k++ {
+			wg.Add(1)
+			go func() { defer wg.Done(); conn.request("call.t.s.bump", []byte(`{}`)) }()
+		}
+		wg.Add(2)
+		go func() { defer wg.Done(); conn.request("get.t.s", []byte(`{"query":"l=-1"}`)) }()
+		withDone := make(chan struct{})
+		go func() {
+			defer wg.Done()
+			if svc.With("t.s", func(r res.Resource) { enter(); close(withDone) }) == nil {
+				select {
+				case <-withDone:
+				case <-time.After(5 * time.Second):
+				}
+			}
+		}()
+		wg.Wait()
+	}
+	svc.Shutdown()
+	dist["same_resource_callbacks_run"] += counter / 2
+	return atomic.LoadInt32(&over) == 1
+}
+
 // mainRace (-race-subset): for a -race build.  Concurrent index queries - directly and through a QueryHandler -
 // whose IndexQuery callback returns ONE shared *IndexQuery per scenario (negative limit / offset variants; a
 // fresh shared value per scenario since a write to it shows on first use), plus a concurrent writer.
@@ -981,6 +1151,14 @@ func mainRace(o Opts) {
 			cases = append(cases, Case{Term: "C13 [] [] [] [] [] []", Desc: map[string]interface{}{"scenario": "shared-index-query", "offset": v.off, "limit": v.lim}})
 		}
 	}
+	// the application's own callbacks on the pattern of a query QueryHandler
+	for k := 0; k < 2; k++ {
+		if sameResourceOverlap(dist) {
+			impl = append(impl, ImplViolation{What: "two callbacks of one resource (call handler / With callback on the pattern of a query QueryHandler) ran at the same time", Desc: "same-resource-overlap", Tags: []string{"callback-overlap"}})
+		}
+		dist["race_scenarios"]++
+		cases = append(cases, Case{Term: "C13 [] [] [] [] [] []", Desc: map[string]interface{}{"scenario": "same-resource-callbacks"}})
+	}
 	// fresh Store / QueryStore objects over an existing, initialised database: first operations concurrent
 	for _, typed := range []bool{false, true} {
 		for _, viaQS := range []bool{false, true} {
@@ -1043,6 +1221,20 @@ func mainC13(o Opts, nul bool) {
 			}
 			cases = append(cases, c)
 		}
+		// large index populations: scans crossing 256 / 512 / ... entries under one prefix
+		bigs := []int{300, 540}
+		if o.Tier == "thorough" {
+			bigs = []int{300, 540, 800, 1100, 1100}
+		}
+		if o.N > 0 && o.N < 20 {
+			bigs = nil
+		}
+		for _, bn := range bigs {
+			c := runC13(genBig(r, bn), dist, &impl)
+			dist["big_population_histories"]++
+			dist["big_population_entries"] += bn
+			cases = append(cases, c)
+		}
 		// a key under an index prefix that is no index entry: the error path of FetchCollection / Query
 		for fi, fk := range []string{"k:zz", "kb:a"} {
 			ms := genHistory(r, 6+fi, false)
@@ -1087,7 +1279,7 @@ func mainC13(o Opts, nul bool) {
 		}
 	}
 	Emit(o, "C13", "From GoRes Require Import Run.Run_C13.", "c13case",
-		"random mutation histories (1-30 creates / key-changing and key-keeping updates / deletes / failing operations over 4 ids, two indexes, one with nil keys) on a real BadgerDB, Flush, then index queries: prefix (empty, partial, full key, longer, containing NUL / ':' / 0xFF) x key filter x offset -1..3 x limit -3..3 x Reverse; every fourth history with queries racing the index maintenance; backlog histories (one writer issues 300-600, thorough up to 2000, mutations while the index worker is stalled inside Index.Key so the 256-slot task queue fills up, then release and Flush); every third history on a Store without prefix whose ids include \"k;\" / \"kb;\" (raw value keys exactly equal to the prefix successor a Reverse scan seeks to; the whole key space is compared); Flush-race scenario with the index task held in Index.Key; overlapping-Flush scenarios (a flusher / writer+flusher pair or triple in both orders while the index worker is stalled, the last one snapshots values, key space and queries right after its own Flush); non-trivial = at least 2 stored values and a query returning at least 2 ids; distinct by (history, queries)",
+		"random mutation histories (1-30 creates / key-changing and key-keeping updates / deletes / failing operations over 4 ids, two indexes, one with nil keys) on a real BadgerDB, Flush, then index queries: prefix (empty, partial, full key, longer, containing NUL / ':' / 0xFF) x key filter x offset -1..3 x limit -3..3 x Reverse; every fourth history with queries racing the index maintenance; backlog histories (one writer issues 300-600, thorough up to 2000, mutations while the index worker is stalled inside Index.Key so the 256-slot task queue fills up, then release and Flush); every third history on a Store without prefix whose ids include \"k;\" / \"kb;\" (raw value keys exactly equal to the prefix successor a Reverse scan seeks to; the whole key space is compared); large index populations (300 and 540, thorough up to 1100, entries under one key prefix with ids extending each other around scan positions 256 / 512 / 768; offsets and limits crossing those positions, both directions, with and without filter); Flush-race scenario with the index task held in Index.Key; overlapping-Flush scenarios (a flusher / writer+flusher pair or triple in both orders while the index worker is stalled, the last one snapshots values, key space and queries right after its own Flush); non-trivial = at least 2 stored values and a query returning at least 2 ids; distinct by (history, queries)",
 		cases, dist, map[string]interface{}{"nul_keys": nul}, impl, 40)
 }
 
@@ -2345,7 +2537,14 @@ func mainC14(o Opts) {
 	if o.Replay != "" {
 		var dd dirDesc
 		var d c14desc
-		if err := LoadReplay(o.Replay, &dd); err == nil && dd.Directed {
+		var sc struct {
+			Scenario string `json:"scenario"`
+		}
+		if LoadReplay(o.Replay, &sc) == nil && sc.Scenario == "same-resource-callbacks" {
+			if sameResourceOverlap(dist) {
+				impl = append(impl, ImplViolation{What: "two callbacks of one resource (the application's call handler / Service.With callback registered on the pattern of a query store.QueryHandler) ran at the same time: the handler layer made a serial resource concurrent", Desc: map[string]interface{}{"scenario": "same-resource-callbacks"}, Tags: []string{"callback-overlap"}})
+			}
+		} else if err := LoadReplay(o.Replay, &dd); err == nil && dd.Directed {
 			cases = append(cases, runDirected(dd, dist, &impl))
 		} else if err := LoadReplay(o.Replay, &d); err != nil {
 			panic(err)
@@ -2399,6 +2598,11 @@ func mainC14(o Opts) {
 			if o.Tier == "thorough" {
 				extra = 1500
 			}
+			// callbacks of one resource never overlap, also on the pattern of a query QueryHandler
+			if sameResourceOverlap(dist) {
+				impl = append(impl, ImplViolation{What: "two callbacks of one resource (the application's call handler / Service.With callback registered on the pattern of a query store.QueryHandler) ran at the same time: the handler layer made a serial resource concurrent", Desc: map[string]interface{}{"scenario": "same-resource-callbacks", "service": "t", "pattern": "s", "in_flight": "2 call requests, 1 get request, 1 With callback"}, Tags: []string{"callback-overlap"}})
+			}
+			dist["same_resource_overlap_checks"]++
 			for _, dd := range directedList(r, extra) {
 				cases = append(cases, runDirected(dd, dist, &impl))
 			}
